@@ -74,7 +74,10 @@ func init() {
 	explore.Register(&explore.Scenario{
 		Name: "mux_route",
 		Body: func(x *vs.Exec, p explore.Params) {
+			x.Hold()
 			m := newMuxPair(x)
+			x.Release()
+			x.OnCleanup(func() { m.hs.Close(); m.ps.Close() })
 			d := newDone(x)
 			x.Data["d"] = d
 			for i, pat := range strings.Split(p["pat"], ",") {
@@ -174,28 +177,6 @@ func init() {
 			x.Quiesce(6 * time.Second)
 			checkNoLeak(x, "hashicorp/go-plugin.")
 		},
-		Instances: func(tier string) []explore.Params {
-			var out []explore.Params
-			one := []string{}
-			for _, s := range []string{"h", "p"} {
-				for _, o := range []string{"A", "D"} {
-					for _, g := range []string{"0", "2000", "4900"} {
-						one = append(one, s+o+g)
-					}
-				}
-			}
-			for _, a := range one {
-				out = append(out, explore.Params{"pat": a})
-			}
-			for _, a := range one {
-				for _, b := range one {
-					if tier == "quick" && (strings.HasSuffix(a, "2000") || strings.HasSuffix(b, "2000")) {
-						continue
-					}
-					out = append(out, explore.Params{"pat": a + "," + b})
-				}
-			}
-			return out
-		},
+		Instances: routeInstances,
 	})
 }
